@@ -28,6 +28,8 @@ MODELS = {
                    variants=[dict(name="pinned-F1", cfg="MC_Deploy_quick.cfg", constants={"SignalAfterNotify": "FALSE"},
                                   invariants=["D_C02"])],
                    no_exempt=[("D_C02", "MC_Deploy_quick.cfg"), ("D_C03_b", "MC_Deploy_quick.cfg")]),
+    "health": dict(module="MC_Deploy.tla", quick=["MC_DeployBad_quick.cfg"], thorough=["MC_DeployBad_thorough.cfg"], sim_cfg="MC_DeployBad_quick.cfg",
+                   witnesses=[], variants=[], no_exempt=[]),
     "pause": dict(module="MC_Pause.tla",
                   quick=["MC_Pause%s.cfg" % x for x in "ABCDEF"],
                   thorough=["MC_Pause%s.cfg" % x for x in "ABCDEF"],
@@ -47,10 +49,12 @@ CONC = {
     "C06": dict(families=["own"], invs=["C06_b"], dinvs=[]),
     "C07": dict(families=["pause"], invs=["C07_a", "C07_b", "C07_c", "C07_d", "C07_e", "C07_f"], dinvs=["D_C07_a", "D_C07_b", "D_C07_f"]),
     "C08": dict(families=["pause"], invs=["C08", "C08_fwd"], dinvs=["D_C08", "D_C07_a"]),
+    "C09": dict(families=["health", "rollout"], invs=["C09_a", "C09_b", "C09_c", "C09_d"], dinvs=["D_C09"]),
     "C17": dict(families=["deploy", "pause", "rollout"], invs=["C17_a", "C17_b", "C17_c"], dinvs=["D_C17_c"]),
 }
 
-SIZES = {"quick": {"deploy": 160, "pause": 160, "rollout": 128, "own": 240}, "thorough": {"deploy": 4000, "pause": 4000, "rollout": 3000, "own": 4000}}
+SIZES = {"quick": {"deploy": 160, "pause": 160, "rollout": 128, "own": 240, "health": 160},
+         "thorough": {"deploy": 4000, "pause": 4000, "rollout": 3000, "own": 4000, "health": 3000}}
 SIMS = {"quick": 30, "thorough": 500}
 MC_TIMEOUT = {"quick": 240, "thorough": 1500}
 
@@ -266,7 +270,7 @@ def run_conc(prop, tier, seed, replay=None):
 SEQ = {
     "C04": dict(invs=["C04", "C11_restore"], cov=["C04", "C04_404"], dinvs=["Inv_RouteWellDefined", "Inv_RouteSound"]),
     "C05": dict(invs=["C05_b", "C05_a"], cov=["C05_b"], dinvs=["Inv_Ownership", "Act_RejectedChangesNothing"]),
-    "C06": dict(invs=["C06_a", "C06_res", "C05_b", "C16_acme", "C10_notset"], cov=["C06_a", "C06_res"], dinvs=["Act_FailChangesNothing"]),
+    "C06": dict(invs=["C06_a", "C06_b", "C06_res", "C05_b", "C16_acme", "C10_notset"], cov=["C06_a", "C06_res"], dinvs=["Act_FailChangesNothing"]),
     "C10": dict(invs=["C10", "C10_notset"], cov=["C10", "C10_notset"], dinvs=["Inv_SplitNeedsTargets"]),
     "C11": dict(invs=["C11_cfg", "C11_restore", "C18_panic"], cov=["C11_cfg"], dinvs=["Act_FailChangesNothing"]),
     "C16": dict(invs=["C16", "C16_cert", "C16_acme", "C11_restore"], cov=["C16", "C16_cert"], dinvs=["Inv_Cert", "Inv_Decision"]),
@@ -288,7 +292,7 @@ def run_seq(prop, tier, seed, replay=None):
     else:
         plans += routing.regression_plans()
         pw = routing.pairwise_restart_plans()
-        plans += pw if tier == "thorough" else rng.sample(pw, 40)
+        plans += pw
         wd = vlib.spec_copy("routing")
         cfg = "MC_Routing_%s.cfg" % tier
         pm = vlib.start_tlc(wd, "MC_Routing.tla", cfg, workers=vlib.NCPU // 2, timeout=MC_TIMEOUT[tier])
@@ -441,6 +445,89 @@ def run_seq(prop, tier, seed, replay=None):
     return rc
 
 
+# ---- function families: a TLA+ module defines the function, a Go driver records (input, output) lines -----------
+
+FN = {
+    "C10": dict(test="TestRolloutFn", module="RolloutTrace.tla", cfg="RolloutTrace.cfg", mc=("Rollout.tla", "Rollout.cfg"),
+                keep={"reset", "rollout_obs", "rollout_end", "harness_error"},
+                invs=["C10_fn", "C10_off", "C10_optin", "C10_allow", "C10_share"], cov=["C10_fn", "C10_allow", "C10_optin", "C10_off"],
+                sizes={"quick": {"VERIF_N": "200", "VERIF_EXTREME": "150000000"}, "thorough": {"VERIF_N": "2000", "VERIF_EXTREME": "1500000000"}},
+                rule="one evaluation = one request carrying one cookie value (random values, values whose hash is extreme or next to a "
+                     "percentage boundary, several header shapes) sent through the full stack at one of the 101 percentages / allowlists; "
+                     "RolloutTrace narrows the threshold interval of each value and checks the share band; distinct_nontrivial = decisions "
+                     "that narrowed or tested a threshold interval, an allowlist, the opt-in rule or the no-split rule"),
+}
+
+
+def run_fn(prop, tier, seed, replay=None):
+    import subprocess
+    t0 = time.time()
+    spec = FN[prop]
+    known = vlib.load_known()
+    binary = vlib.build_harness()
+    mc = []
+    pm = None
+    if spec.get("mc"):
+        wd = vlib.spec_copy("fn-" + prop)
+        pm = vlib.start_tlc(wd, spec["mc"][0], spec["mc"][1], workers=4, timeout=MC_TIMEOUT[tier])
+    out = os.path.join(vlib.scratch(), "fn-%s-%d" % (prop, int(time.time() * 1000) % 100000))
+    os.makedirs(out, exist_ok=True)
+    env = dict(vlib.GOENV, VERIF_OUT=out, VERIF_SEED=str(seed), VERIF_TIER=tier)
+    env.update(spec["sizes"][tier])
+    if replay:
+        env.update(json.load(open(replay)).get("env", {}))
+    p = subprocess.run([binary, "-test.run", "^" + spec["test"] + "$", "-test.timeout", "60m"], cwd=out, env=env, capture_output=True, text=True)
+    if p.returncode != 0:
+        pp = vlib.classify_crash(out, p.stdout + p.stderr)
+        if pp:
+            raise pp
+        raise Inconclusive("driver %s failed (exit %d):\n%s" % (spec["test"], p.returncode, (p.stdout + p.stderr)[-3000:]))
+    tf = os.path.join(out, "obs.ndjson")
+    vlib.filter_trace(os.path.join(out, "trace.ndjson"), tf, keep=spec["keep"])
+    res = vlib.validate_traces([tf], module=spec["module"], cfg=spec["cfg"])
+    if pm:
+        rc, o = vlib.finish_tlc(pm)
+        verdict = vlib.tlc_verdict(rc, o)
+        st, gen = vlib.tlc_stats(o)
+        mc.append(dict(cfg=spec["mc"][1], verdict=verdict, states=st, transitions=gen))
+        if verdict != "ok":
+            raise Inconclusive("TLC on %s: %s\n%s" % (spec["mc"][1], verdict, o[-1500:]))
+    if [v for v in res["violations"] if v["inv"] == "HARNESS"]:
+        raise Inconclusive("harness-level problem in trace: %r" % [v for v in res["violations"] if v["inv"] == "HARNESS"][:3])
+    mine = [v for v in res["violations"] if v["inv"] in spec["invs"]]
+    listed, unlisted = collections.OrderedDict(), []
+    for v in mine:
+        k = vlib.match_known(prop, v, known)
+        if k:
+            listed.setdefault(k["id"], [k, 0])[1] += 1
+        else:
+            unlisted.append(v)
+    for kid, (k, cnt) in listed.items():
+        print("KNOWN-FINDING: %s (%d instance(s) this run)" % (k["text"].split(" ", 1)[1], cnt))
+    rc = 0
+    for i, v in enumerate(unlisted[:10]):
+        path = vlib.save_replay(prop, 200 + i, {"property": prop, "violation": {k: v[k] for k in v if k != "trace"},
+                                                "env": dict(spec["sizes"][tier], VERIF_SEED=str(seed)), "plan": {"driver": spec["test"]}})
+        print("VIOLATION property=%s replay=%s" % (prop, path))
+        print("  %s subject=%s: %s" % (v["inv"], v["subj"], v["detail"]))
+        rc = 1
+    samples = []
+    with open(tf) as f:
+        for j, line in enumerate(f):
+            if j >= 8:
+                break
+            samples.append(json.loads(line))
+    nontrivial = sum(res["coverage"].get(i, 0) for i in spec["cov"])
+    cov = {"states": max(1, sum(m["states"] for m in mc)), "transitions": max(1, sum(m["transitions"] for m in mc)),
+           "traces_validated_against_impl": 1, "evaluations": res["lines"], "distinct_nontrivial": nontrivial, "rule": spec["rule"],
+           "design_model": mc, "antecedent_hits": res["coverage"], "samples": samples, "known_findings_printed": list(listed.keys()),
+           "exhaustive": False, "_violations": len(unlisted), "_assumptions": ["TLC/SANY", "harness driver and recorder", "fake targets identify the serving group"]}
+    EVIDENCE.append(cov)
+    if nontrivial == 0:
+        raise Inconclusive("vacuous run for %s" % prop)
+    return rc
+
+
 EVIDENCE = []
 
 
@@ -484,8 +571,13 @@ def main():
         kind = None
         if a.replay:
             kind = "seq" if "steps" in (json.load(open(a.replay)).get("plan") or {}) else "conc"
+        if a.replay and "driver" in (json.load(open(a.replay)).get("plan") or {}):
+            kind = "fn"
+        if a.prop in FN and kind in (None, "fn"):
+            rc = run_fn(a.prop, a.tier, seed, a.replay)
         if a.prop in SEQ and kind in (None, "seq"):
-            rc = run_seq(a.prop, a.tier, seed, a.replay)
+            rc2 = run_seq(a.prop, a.tier, seed, a.replay)
+            rc = rc2 if rc is None else max(rc, rc2)
         if a.prop in CONC and kind in (None, "conc"):
             rc2 = run_conc(a.prop, a.tier, seed, a.replay)
             rc = rc2 if rc is None else max(rc, rc2)
